@@ -350,8 +350,9 @@ static int cmd_minimise(int argc, char **argv) {
     Scn cur = wd;   // carries explicit decisions for every slot that ran
     if (still_fails(cur, cls)) {
       best = cur;
-      for (auto &kv : best.dec) {
-        int slot = kv.first;
+      std::vector<int> slots;
+      for (auto &kv : best.dec) slots.push_back(kv.first);
+      for (int slot : slots) {   // (iterate over a copy of the keys: `best` is replaced inside the loop)
         // all-default
         {
           Scn c = best;
